@@ -14,7 +14,7 @@ def to_labels(vec):
          "names": {L(i + 1): n for i, n in enumerate(names)}}
     if z["q"] == "get":
         q["relax"] = z["relax"]
-        q["res"] = {"err": z["res"]["err"], "val": [L(x) for x in z["res"]["val"]]}
+        q["res"] = {"err": z["res"]["err"], "val": [L(x) for x in z["res"]["val"]], "at": [L(x) for x in z["res"]["at"]], "comp": z["res"]["comp"]}
     else:
         q["strict"] = {"err": z["strict"]["err"], "val": [L(x) for x in z["strict"]["val"]]}
         q["relaxed"] = {"err": z["relaxed"]["err"], "val": [L(x) for x in z["relaxed"]["val"]]}
@@ -72,20 +72,26 @@ def usable(variant, names, cs):
     return not any(sep in n for n in names.values()) and not any(sep in c for c in cs)
 
 
-def outcome(fn, lab):
+def outcome(fn, lab, payload=False):
     from anytree.resolver import ChildResolverError, ResolverError, RootResolverError
 
     try:
         r = fn()
     except ResolverError as e:
-        return {"err": type(e).__name__ if type(e) in (ResolverError, ChildResolverError, RootResolverError) else "Other:" + type(e).__name__, "val": []}
+        out = {"err": type(e).__name__ if type(e) in (ResolverError, ChildResolverError, RootResolverError) else "Other:" + type(e).__name__, "val": []}
+        if payload:
+            out["at"] = [lab(getattr(e, "node", None))]
+            child = getattr(e, "child", None)
+            out["comp"] = list(child) if isinstance(child, str) else []
+        return out
     except Exception as e:  # noqa
         return {"err": "Other:" + type(e).__name__, "val": []}
+    extra = {"at": [], "comp": []} if payload else {}
     if r is None:
-        return {"err": "none", "val": []}
+        return dict({"err": "none", "val": []}, **extra)
     if isinstance(r, list):
-        return {"err": "none", "val": [lab(x) for x in r]}
-    return {"err": "none", "val": [lab(r)]}
+        return dict({"err": "none", "val": [lab(x) for x in r]}, **extra)
+    return dict({"err": "none", "val": [lab(r)]}, **extra)
 
 
 _dummy = None
@@ -115,7 +121,7 @@ def perform(q, variant, par, ch):
     start = objs[q["s"]]
     obs = {"q": q["q"], "path": path, "variant": variant}
     if q["q"] == "get":
-        obs["res"] = outcome(lambda: Resolver(attr, ignorecase=q["ic"], relax=q["relax"]).get(start, path), lab)
+        obs["res"] = outcome(lambda: Resolver(attr, ignorecase=q["ic"], relax=q["relax"]).get(start, path), lab, payload=True)
         return obs
     runs = []
     cache = getattr(Resolver, "_match_cache", None)
